@@ -293,6 +293,11 @@ def hdl21_naming_encoder(obj: Any) -> Any:
         # Mix the qualified class names/paths with the parameters
         return hdl21_naming_encoder(obj.module) + _unique_name(obj.params)
 
+    if isinstance(obj, (set, frozenset)):
+        # Sets iterate in hash order, which differs from process to process.
+        # Encode their members, and list those encodings in sorted order.
+        return sorted(json.dumps(v, default=hdl21_naming_encoder) for v in obj)
+
     # Dataclasses also require custom handling, as the default encoder deep-copies them,
     # often invoking methods not supported on several Hdl21 types.
     # Convert to (shallow) dictionaries instead.
